@@ -301,10 +301,16 @@ def _cover_fee_direction(ctx):
     amt = expr_tree(prog, h, tr[0].args[1], inline=1)
     avail = [expr_tree(prog, h, a, inline=1) for a in mins[0].args]
     VA = "p1.accounts.insurance_vault.0.pointer.amount"
-    ok_avail = any(re.fullmatch(r"phi\(%s\|transpose\(map\(maybe_take_bank_mint\(.*\),closure\{calculate_post_fee_spl_deposit_amount\(to_account_info\(a2\),%s,get\(\)\.epoch\)\}\)\)\)" % (re.escape(VA), re.escape(VA)), a) for a in avail)
+    # (opt.map(|m| f(m)).transpose()?.unwrap_or(d) and `match opt { Some(m) => f(m)?, None => d }` have the same tree: phi(d|f(opt)))
+    MINT = r"maybe_take_bank_mint\([^|]*\)"
+    pa1 = r"calculate_post_fee_spl_deposit_amount\(to_account_info\(%s\),%s,get\(\)\.epoch\)" % (MINT, re.escape(VA))
+    ok_avail = any(re.fullmatch(r"phi\((?:%s\|%s|%s\|%s)\)" % (re.escape(VA), pa1, pa1, re.escape(VA)), a) for a in avail)
     ctx.inst("C07.R3", "cover/available-insurance-net-of-transfer-fee", ok_avail,
              "available insurance = what would arrive from the whole vault balance: post-fee(vault.amount) for a Token-2022 mint, vault.amount otherwise", [a[:300] for a in avail], mins[0].loc)
-    m = re.fullmatch(r"phi\((checked_to_num\(checked_ceil\(min\(.*\)\)\))\|transpose\(map\(maybe_take_bank_mint\(.*\),closure\{calculate_pre_fee_spl_deposit_amount\(to_account_info\(a2\),(checked_to_num\(checked_ceil\(min\(.*\)\)\)),get\(\)\.epoch\)\}\)\)\)", amt)
+    CEIL = r"checked_to_num\(checked_ceil\(min\(.*\)\)\)"
+    pb1 = r"calculate_pre_fee_spl_deposit_amount\(to_account_info\(%s\),(?P<x>%s),get\(\)\.epoch\)" % (MINT, CEIL)
+    m = re.fullmatch(r"phi\((?P<y>%s)\|%s\)" % (CEIL, pb1), amt) or re.fullmatch(r"phi\(%s\|(?P<y>%s)\)" % (pb1, CEIL), amt)
+    # (the two occurrences of ceil(covered) are the same local; inside the pre-fee arm its tree may be cut by the depth bound)
     ctx.inst("C07.R3", "cover/transfer-grossed-up-for-transfer-fee", bool(m),
              "amount sent from the insurance vault = pre-fee(ceil(covered)) for a Token-2022 mint (so that ceil(covered) arrives), ceil(covered) otherwise", amt[:400], tr[0].loc)
 
